@@ -52,19 +52,20 @@ fn c03_spec() -> CheckSpec {
     CheckSpec {
         property: "C03",
         level: "fault_enumeration",
-        rule: "files that were valid when written (generated from the frozen grammar, with A2ML and IF_DATA, whole file or fragment) and were then damaged by storage faults. Scenario 1 enumerates per document every truncation point (quick: every point for documents <= 700 bytes, else 160 biased points plus every point inside the A2ML text) and every single-token drop / duplication / swap, under configurations entry {load_from_string, load, load_fragment, load_fragment_file} x strict x built-in A2ML spec {none, valid, damaged} (thorough: all configurations for every point). Scenario 4 (supplementary input sampling, not fault simulation): token soups over the lexical alphabet with a built-in specification that is valid or malformed. Scenario 3: include trees (as in C16) with 1..2 files damaged or removed per load. Scenario 2: seeded 1..3 byte-granular faults (bit flip, zero fill, garbage, lost / duplicated / swapped region, misdirected write) on UTF-8/16/32 encoded files, with read chunking and I/O faults. Oracle: the call returns Ok or Err; no panic, no arithmetic overflow (overflow checks on), fuel (4096 ticks per byte) not exhausted. evaluations = loads. Non-trivial: the fault changed the bytes. Distinct: (fault operator, lexical region class of the fault position, configuration, outcome class).",
+        rule: "files that were valid when written (generated from the frozen grammar, with A2ML and IF_DATA, whole file or fragment) and were then damaged by storage faults. Scenario 1 enumerates per document every truncation point (quick: every point for documents <= 700 bytes, else 160 biased points plus every point inside the A2ML text) and every single-token drop / duplication / swap and every numeric token replaced by a value at or beyond an integer-width limit, under configurations entry {load_from_string, load, load_fragment, load_fragment_file} x strict x built-in A2ML spec {none, valid, damaged} (thorough: all configurations for every point). Scenario 4 (supplementary input sampling, not fault simulation): token soups over the lexical alphabet (with unusual version numbers and integer-width limits) with a built-in specification that is valid or malformed. Scenario 5 (supplementary input sampling as well): extreme shapes of small inputs: IF_DATA blocks, A2ML types, chains of named A2ML types, array dimensions and unknown blocks nested 3..150000 deep, named A2ML types referencing their predecessor 2/3/8 times over up to 22 levels, in the file or as built-in specification; a returned model is also written and dropped. Scenario 3: include trees (as in C16) with 1..2 files damaged or removed per load. Scenario 2: seeded 1..3 byte-granular faults (bit flip, zero fill, garbage, lost / duplicated / swapped region, misdirected write) on UTF-8/16/32 encoded files, with read chunking and I/O faults. Oracle: the call returns Ok or Err and its diagnostics can be rendered (Display/Debug); no panic, no arithmetic overflow (overflow checks on), fuel (512 ticks per byte) not exhausted, peak memory held by the call (counting allocator) at most 192 MiB + 4096 bytes per input byte, the process does not die (stack overflow / abort are reported through the check script's abnormal-termination path). evaluations = loads. Non-trivial: the fault changed the bytes. Distinct: (fault operator, lexical region class of the fault position, configuration, outcome class).",
         assumptions: vec![
-            "damaged inputs are the closure of valid generated documents under the fault operators, not all byte strings: token soups and adversarial nesting depth are outside this fault model",
+            "damaged inputs are the closure of valid generated documents under the fault operators, not all byte strings; token soups and extreme nesting / reference shapes are sampled by two supplementary scenarios that are plain seeded input generation, not fault simulation",
             "fuel covers loops that pass a tick site (tokenizer, A2ML tokenizer/parser loops, parser token cursor); tick-free loops are not covered",
         ],
         real_components: vec!["a2lfile: tokenizer, loader, parser, generated parsers, ifdata, a2ml (all four load entry points)", "std Read::read_to_end"],
-        stubbed_components: vec!["file system (in-memory VFS)", "OS randomness feeding std RandomState"],
-        expected_probes: vec!["truncation-inside-a2ml-text", "fault-inside-a2ml-text"],
+        stubbed_components: vec!["file system (in-memory VFS)", "OS randomness feeding std RandomState", "global allocator: the system allocator wrapped by a per-thread byte counter (memory seam)"],
+        expected_probes: vec!["truncation-inside-a2ml-text", "fault-inside-a2ml-text", "number-replaced-by-extreme-value", "soup-with-unusual-version-numbers", "nesting-depth>=2000", "named-type-fanout>=2^20-nodes"],
         plans: vec![
             ScenarioPlan { scenario: Box::new(c03::C03Enumerate), quick_runs: 320, thorough_runs: 3_000 },
             ScenarioPlan { scenario: Box::new(c03::C03RandomFaults), quick_runs: 30_000, thorough_runs: 1_500_000 },
             ScenarioPlan { scenario: Box::new(c03::C03IncludeTrees), quick_runs: 5_000, thorough_runs: 250_000 },
             ScenarioPlan { scenario: Box::new(c03::C03TokenSoups), quick_runs: 150_000, thorough_runs: 5_000_000 },
+            ScenarioPlan { scenario: Box::new(c03::C03Nesting), quick_runs: 1_500, thorough_runs: 40_000 },
         ],
     }
 }
@@ -73,15 +74,15 @@ fn c15_spec() -> CheckSpec {
     CheckSpec {
         property: "C15",
         level: "exploration",
-        rule: "a model loaded from a file with 0..300 MODULE-level elements of up to 20 kinds in arbitrary order (optional comments, IF_DATA, MOD_COMMON), then a seeded history of up to 60 (thorough: 400) operations over {push new element of kind K (all 20 list kinds), merge a small module with fresh names, sort_new_items (runs of 1..64 consecutive calls drawn on purpose), write to the simulated FS, write + reload}. After every operation the output text is scanned by an independent scanner for the MODULE-level (kind, name) sequence and compared with an order model: placed elements never change relative order; after sort_new_items each pending element whose kind has a placed member stands after the last placed element of its kind and before the placed element that followed it, others stay at the end; nothing is lost or duplicated; no panic or arithmetic overflow. evaluations = library calls. Non-trivial: at least one sort_new_items placed a pending element. Distinct: (size bucket, kinds, longest consecutive-sort run bucket, effective sorts, merges, pending kinds).",
+        rule: "a model loaded from a file with 1..3 MODULEs and 0..300 MODULE-level elements of up to 20 kinds in arbitrary order, with A2ML, MOD_COMMON, MOD_PAR, VARIANT_CODING, IF_DATA and USER_RIGHTS blocks at arbitrary positions among them (optional comments), then a seeded history of up to 60 (thorough: 400) operations over {push new element of kind K (all 20 list kinds and USER_RIGHTS), merge a small module with fresh names, sort_new_items (runs of 1..64 consecutive calls drawn on purpose), write to the simulated FS, write + reload}. After every operation the output text is scanned by an independent scanner for the MODULE-level (kind, name) sequence and compared with an order model: placed elements never change relative order; after sort_new_items each pending element whose kind has a placed member stands after the last placed element of its kind and before the placed element that followed it, others stay at the end; nothing is lost or duplicated; no panic or arithmetic overflow. evaluations = library calls. Non-trivial: at least one sort_new_items placed a pending element. Distinct: (size bucket, kinds, longest consecutive-sort run bucket, effective sorts, merges, pending kinds).",
         assumptions: vec![
             "history dimension only: nothing here is nondeterministic and no fault is involved; the write/reload steps go through the VFS but no oracle depends on that",
             "the mutual order of elements inserted by the same call, and of pending elements at the end, is not constrained (the property does not state it)",
-            "only the 20 name-indexed list kinds are pushed; optional singletons (A2ML, MOD_COMMON, MOD_PAR, VARIANT_CODING) and unnamed IF_DATA / USER_RIGHTS are not asserted on",
+            "every MODULE-level block of the file belongs to the placed order; pushed are the 20 name-indexed list kinds and USER_RIGHTS. New optional single blocks (A2ML, MOD_COMMON, MOD_PAR, VARIANT_CODING) are not pushed: the code places them at the top on purpose, which the property neither demands nor forbids",
         ],
         real_components: vec!["a2lfile: sort_new_items, merge_modules, writer ordering (Writer::sort_function), load/write"],
         stubbed_components: vec!["file system (in-memory VFS, used by the write steps only)"],
-        expected_probes: vec![">=16-consecutive-sort_new_items", "file-with-several-modules", "new-elements-placed-in-a-later-module"],
+        expected_probes: vec![">=16-consecutive-sort_new_items", "file-with-several-modules", "new-elements-placed-in-a-later-module", "optional-block-or-if_data-among-the-elements"],
         plans: vec![ScenarioPlan { scenario: Box::new(c15::C15Histories), quick_runs: 4_000, thorough_runs: 120_000 }],
     }
 }
@@ -90,7 +91,7 @@ fn c16_spec() -> CheckSpec {
     CheckSpec {
         property: "C16",
         level: "fault_enumeration",
-        rule: "a generated document is split at element boundaries (top level, inside MODULE, inside elements with sub-elements) into a main file plus 1..6 include files nested up to 3 deep in sub-/parent directories of the simulated file system; per directive quoted/unquoted name, / or \\ separators, includer-relative or absolute path, optional decoy at the CWD-relative location, optional A2ML-level include, empty and comment-only include files, include files in another encoding. Oracles T1 load(main) == load_from_string(flattened text), T2 write + reload from the same directory gives an equal model and leaves include files untouched, T3 merge_includes() output is self-contained and equal, T4 cyclic includes are reported as errors. Then the fault-free load's file-system call sequence is recorded and re-run once for every (call, applicable fault kind) pair: benign faults must not change the result, hard faults must give the error that names the file / directive. evaluations = library calls. Non-trivial: at least one element came from an included file. Distinct: (depth, number of includes, name syntaxes, A2ML include, strictness, lexical features) and (fault kind, call kind / file role).",
+        rule: "a generated document is split at element boundaries (top level, inside MODULE, inside elements with sub-elements) into a main file plus 1..6 include files nested up to 3 deep in sub-/parent directories of the simulated file system; per directive quoted/unquoted name, / or \\ separators, file and directory names from a pool (names starting with n, r, t; for quoted names blanks, '-', '+', '&', '=', '~', apostrophes, parentheses, non-ASCII letters; also for the A2ML-level include), includer-relative or absolute path, optional decoy at the CWD-relative location, optional A2ML-level include, empty and comment-only include files, include files in another encoding. Oracles T1 load(main) == load_from_string(flattened text), T2 write + reload from the same directory gives an equal model and leaves include files untouched, T3 merge_includes() output is self-contained and equal, T4 cyclic includes are reported as errors. Then the fault-free load's file-system call sequence is recorded and re-run once for every (call, applicable fault kind) pair: benign faults must not change the result, hard faults must give the error that names the file / directive. evaluations = library calls. Non-trivial: at least one element came from an included file. Distinct: (depth, number of includes, name syntaxes, A2ML include, strictness, lexical features) and (fault kind, call kind / file role).",
         assumptions: vec![
             "splits are made only between complete tagged items of one parent; no file is included twice",
             "the CWD-relative legacy fallback is neither required nor forbidden: exists:false-neg is not injected when a decoy could be picked up",
@@ -98,7 +99,7 @@ fn c16_spec() -> CheckSpec {
         ],
         real_components: vec!["a2lfile: tokenizer (include resolution), loader (make_include_filename, load, decoding), a2ml tokenizer (A2ML-level include), parser, writer, merge_includes", "std Read::read_to_end"],
         stubbed_components: vec!["file system (in-memory VFS with directories, CWD, fault plan, call trace)", "OS randomness feeding std RandomState"],
-        expected_probes: vec!["include-resolved-at-depth>=2", "include-resolved-at-depth-3", "EINTR-retried", "empty-include-file", "comment-only-include-file", "decoy-at-cwd-relative-location", "include-inside-if_data", "a2ml-include-inside-an-included-file", "include-file-in-utf16"],
+        expected_probes: vec!["include-resolved-at-depth>=2", "include-resolved-at-depth-3", "EINTR-retried", "empty-include-file", "comment-only-include-file", "decoy-at-cwd-relative-location", "include-inside-if_data", "a2ml-include-inside-an-included-file", "include-file-in-utf16", "include-name-with-special-characters", "a2ml-include-name-with-special-characters"],
         plans: vec![
             ScenarioPlan { scenario: Box::new(c16::C16Includes), quick_runs: 6_000, thorough_runs: 200_000 },
             ScenarioPlan { scenario: Box::new(c16::C16Cycles), quick_runs: 64, thorough_runs: 512 },
@@ -110,11 +111,11 @@ fn c17_spec() -> CheckSpec {
     CheckSpec {
         property: "C17",
         level: "exploration",
-        rule: "generated documents with non-ASCII and non-BMP characters in strings and comments, padded to every length residue mod 4, encoded as UTF-8, UTF-8+BOM, UTF-16LE/BE with/without BOM, UTF-32LE/BE with/without BOM or Latin-1 bytes that are invalid UTF-8, stored in the simulated file system and read under a chunking schedule (whole, 1 byte, random, exactly len, len +- 1) with benign read-path faults (EINTR, short read, fstat size lie). Oracle: load(file) and load_from_string(decoded text) give equal models and the same diagnostic classes, or fail with the same error class. Totality: the encoded bytes after one storage fault load without panic; a second scenario loads byte strings that are not derived from a document (BOM / NUL / surrogate / high-byte patterns and the lexical alphabet, lengths 0..400, every residue mod 4) through load and load_fragment_file. Non-trivial: non-ASCII content or an encoding other than plain UTF-8. Distinct: (encoding, length mod 4, non-BMP present, chunk class, fault kinds fired, outcome).",
+        rule: "generated documents with non-ASCII and non-BMP characters in strings and comments, padded to every length residue mod 4, encoded as UTF-8, UTF-8+BOM, UTF-16LE/BE with/without BOM, UTF-32LE/BE with/without BOM or Latin-1 bytes that are invalid UTF-8, stored in the simulated file system and read under a chunking schedule (whole, 1 byte, random, exactly len, len +- 1) with benign read-path faults (EINTR, short read, fstat size lie). Oracle: load(file) and load_from_string(decoded text) give equal models and the same diagnostic classes, or fail with the same error class. E3 (one run in three): the encoded document loaded through a main file, in an encoding of its own, that consists of one /include directive (quoted, unquoted, absolute) gives the same model as the decoded string. Totality: the encoded bytes after one storage fault load without panic; a second scenario loads byte strings that are not derived from a document (BOM / NUL / surrogate / high-byte patterns and the lexical alphabet, lengths 0..400, every residue mod 4) through load and load_fragment_file. Non-trivial: non-ASCII content or an encoding other than plain UTF-8. Distinct: (encoding, length mod 4, non-BMP present, chunk class, fault kinds fired, outcome).",
         assumptions: vec!["first character of every document is ASCII, as the format requires", "Latin-1 variants that happen to be valid UTF-8 are compared against the UTF-8 reading (inherent ambiguity, counted by a probe)"],
         real_components: vec!["a2lfile: loader (read_data, decode_raw_bytes, BOM strip), load/load_fragment_file and everything behind them", "std Read::read_to_end retry/growth loop"],
         stubbed_components: vec!["file system (in-memory VFS)", "OS randomness feeding std RandomState"],
-        expected_probes: vec!["EINTR-retried", "latin1-fallback-exercised"],
+        expected_probes: vec!["EINTR-retried", "latin1-fallback-exercised", "encoded-include-file"],
         plans: vec![
             ScenarioPlan { scenario: Box::new(c17::C17Encodings), quick_runs: 20_000, thorough_runs: 2_000_000 },
             ScenarioPlan { scenario: Box::new(c17::C17ArbitraryBytes), quick_runs: 40_000, thorough_runs: 4_000_000 },
